@@ -56,7 +56,7 @@ namespace c11
     static const char* base[] = { "p", "bnd", "inner", "bnd:l", "a.b", "x-1", "my part", "k=v", "A_B", "7up", "p/q", "it's", "[s]", "a&b" };
     int k = t.range(0, (int)(sizeof(base) / sizeof(base[0])) - 1);
     std::string n = std::string(base[k]) + std::to_string(idx);
-    if(allow_internal && t.flag(1, 8)) n = "_" + n;
+    if(allow_internal && t.flag(1, 4)) n = "_" + n;
     return n;
   }
   /// subset of {0..n-1}: per-element flags for small n, (start, stride, count) otherwise; sorted ascending
@@ -431,7 +431,7 @@ namespace c11
     int npt = t.pick({3, 2, 1}); J jpt = J::arr();
     for(int i = 0; i < npt; ++i) { J pd = J::obj(); Index ne = m ? m->get_num_entities(dim) : (Index)t.range(1, 20); x.ps.add_partition(gen_partition(t, c, ne, i, pd)); jpt.add(pd); }
     d.set("gen_partitions", jpt);
-    o.skip_internal = !t.flag(1, 3); o.indent = !t.flag(1, 4); o.streams = t.flag(1, 5) ? 2 : 1;
+    o.skip_internal = !t.flag(1, 2); o.indent = !t.flag(1, 4); o.streams = t.flag(1, 5) ? 2 : 1;
     d.set("skip_internal", o.skip_internal); d.set("indent", o.indent); d.set("streams", o.streams);
     if(!o.indent) c.label("writer:no-indent"); if(o.streams == 2) c.label("reader:two-streams"); if(!o.skip_internal) c.label("writer:with-internal");
   }
@@ -581,7 +581,7 @@ namespace c11
         else { int i = pick_line([&](const SLine& l) { return is_open(l, "Bezier"); }); if(i < 0) break; f.ok = set_attr(f.text, sk.lines[(size_t)i], "dim", t.flag(1, 2) ? "3" : "1"); f.kind = "dimension:bezier"; }
         break; }
       case 4: {   // indices at / beyond their bound
-        int sub = t.pick({4, 2, 2, 2, 2});
+        int sub = t.pick({4, 2, 2, 4, 2});
         auto bad = [&](unsigned long long bound) -> std::string { int q = t.pick({4, 1, 1, 1}); if(q == 0) return std::to_string(bound); if(q == 1) return std::to_string(bound + 7); if(q == 2) return "-1"; return "18446744073709551615"; };
         if(sub == 0) { int i = pick_line([&](const SLine& l) { return content_in(l, "Mesh", "Topology") && l.ctx.size() == 3; }); if(i < 0) break;
           unsigned long long nv = 0; parse_index(split_ws(sk.open_of(sk.lines[(size_t)i], 1).attrs.at("size"))[0], nv);
@@ -595,9 +595,16 @@ namespace c11
         else if(sub == 3) {   // vertex mapping of a mesh part against the vertex count of the root mesh in the same file
           if(c.excl("c11-mapping-index")) break;
           int mi = pick_line([&](const SLine& l) { return is_open(l, "Mesh") && l.ctx.size() == 1; }); if(mi < 0) break;
-          int i = pick_line([&](const SLine& l) { return content_in(l, "MeshPart", "Mapping") && sk.open_of(l).attrs.at("dim") == "0"; }); if(i < 0) break;
-          unsigned long long nv = 0; parse_index(split_ws(sk.lines[(size_t)mi].attrs["size"])[0], nv);
-          std::string b = bad(nv); f.text = replace_range(w, sk.lines[(size_t)i].beg, sk.lines[(size_t)i].end, b); f.ok = true; f.kind = "index:part-vertex-mapping"; f.detail = b + " (parent vertices " + std::to_string(nv) + ")"; }
+          // any mapping dimension; parts with an internal name ('_' first) are preferred when the file has one (they are
+          // ordinary mesh parts for the reader, only assemblers skip them)
+          std::vector<int> all, internal;
+          for(size_t q = 0; q < sk.lines.size(); ++q) if(content_in(sk.lines[q], "MeshPart", "Mapping")) { all.push_back((int)q); auto it = sk.open_of(sk.lines[q], 1).attrs.find("name"); if(it != sk.open_of(sk.lines[q], 1).attrs.end() && !it->second.empty() && it->second[0] == '_') internal.push_back((int)q); }
+          if(all.empty()) break;
+          const std::vector<int>& pool = (!internal.empty() && t.flag(3, 4)) ? internal : all; int i = pool[(size_t)t.range(0, (int)pool.size() - 1)];
+          const int mdim = std::atoi(sk.open_of(sk.lines[(size_t)i]).attrs.at("dim").c_str()); auto szs = split_ws(sk.lines[(size_t)mi].attrs["size"]); if(mdim < 0 || mdim >= (int)szs.size()) break;
+          if(&pool == &internal) c.label("fault-site:internal-part");
+          unsigned long long nv = 0; parse_index(szs[(size_t)mdim], nv);
+          std::string b = bad(nv); f.text = replace_range(w, sk.lines[(size_t)i].beg, sk.lines[(size_t)i].end, b); f.ok = true; f.kind = "index:part-vertex-mapping"; f.detail = b + " (dim " + std::to_string(mdim) + ", parent entities " + std::to_string(nv) + ")"; }
         else { int i = pick_line([&](const SLine& l) { return content_in(l, "Partition", "Patch"); }); if(i < 0) break;
           unsigned long long ne = 0; parse_index(split_ws(sk.open_of(sk.lines[(size_t)i], 1).attrs.at("size"))[1], ne);
           std::string b = bad(ne); f.text = replace_range(w, sk.lines[(size_t)i].beg, sk.lines[(size_t)i].end, b); f.ok = true; f.kind = "index:patch-element"; f.detail = b + " (elements " + std::to_string(ne) + ")"; }
